@@ -326,6 +326,7 @@ def check(chk):
 
     _stack_reads(chk, repo)
     _interpolation(chk, repo)
+    _suppression(chk, repo)
     _split_symmetry(chk, repo)
     _direct_fade(chk, repo)
 
@@ -544,6 +545,49 @@ def _split_symmetry(chk, repo):
            detail=str(sorted(got)), construct=sb.ident, text="brightness list extension exactly")
     from sa.helpers import consume_after_wake
     consume_after_wake(chk, "BATCH-2", su, "self.dirty_lights_changed", "a light marked dirty while a batch is being sent is picked up by the next round")
+
+
+def _suppression(chk, repo):
+    """SUPP-1: the "nothing to do" shortcuts of _schedule_update read the remembered fade by the layout it was stored in.  The hardware is
+    left alone only when the whole (start, start time, target, target time) tuple is unchanged, or when the *target* colour equals the
+    remembered *target* and the remembered fade has ended (remembered *target time* negative or in the past).  An index that points at
+    another field (the start colour, the start time) suppresses updates the hardware never got."""
+    f = repo.func(LT, "Light._schedule_update")
+    cfg = f.cfg()
+    F = "self._last_fade_target"
+    st = [x for x in walk_local(f.node) if isinstance(x, ast.Assign) and src(x.targets[0]) == F and isinstance(x.value, ast.Tuple)]
+    chk.need(len(st) == 1, "SUPP-1", "_schedule_update remembers the fade it sends", f)
+    layout = [src(e) for e in st[0].value.elts]
+    chk.ob("SUPP-1", "the remembered fade is (start colour, start time, target colour, target time)", layout == ["start_color", "start_time", "target_color", "target_time"],
+           f.where(st[0]), detail=str(layout), construct=f.ident, text="remembered fade layout")
+    n = 0
+    for cmp_ in [x for x in walk_local(f.node) if isinstance(x, ast.Compare) and len(x.ops) == 1]:
+        sides = [cmp_.left, cmp_.comparators[0]]
+        subs = [y for y in sides if isinstance(y, ast.Subscript) and src(y.value) == F]
+        if not subs:
+            if any(src(y) == F for y in sides) and isinstance(cmp_.ops[0], ast.Eq):
+                other = [y for y in sides if src(y) != F][0]
+                n += 1
+                chk.ob("SUPP-1", "the unchanged-fade shortcut compares the whole tuple in the stored order", isinstance(other, ast.Tuple) and [src(e) for e in other.elts] == layout,
+                       f.where(cmp_), detail=src(other), construct=f.ident, text="whole tuple comparison")
+            continue
+        i = const_value(subs[0].slice)
+        other = [y for y in sides if y is not subs[0]][0]
+        n += 1
+        if isinstance(cmp_.ops[0], (ast.Eq, ast.NotEq)):
+            ok = isinstance(i, int) and 0 <= i < len(layout) and layout[i] == src(other) and src(other) == "target_color"
+            chk.ob("SUPP-1", "the same-target shortcut compares the new target colour with the remembered target colour", ok, f.where(cmp_),
+                   detail="compares %s with field %s (%s)" % (src(other), i, layout[i] if isinstance(i, int) and 0 <= i < len(layout) else "?"), construct=f.ident,
+                   text="same-target comparison field %s" % i)
+        else:
+            ok = isinstance(i, int) and 0 <= i < len(layout) and layout[i] == "target_time"
+            chk.ob("SUPP-1", "whether the remembered fade has ended is judged by its target time", ok, f.where(cmp_),
+                   detail="reads field %s (%s)" % (i, layout[i] if isinstance(i, int) and 0 <= i < len(layout) else "?"), construct=f.ident, text="fade-ended field %s" % i)
+    chk.ob("SUPP-1", "comparisons with the remembered fade examined", n >= 4, f.where(), detail=str(n), nontrivial=False)
+    # both shortcuts return before the new fade is remembered; everything else remembers and sends
+    rn = [x for x in cfg.nodes if x.kind == "stmt" and x.ast is st[0]]
+    rets = [x for x in cfg.nodes if x.kind == "stmt" and isinstance(x.ast, ast.Return) and rn and rn[0].id not in cfg.reachable([x.id]) and x.lineno < st[0].lineno]
+    chk.ob("SUPP-1", "there are exactly two shortcuts before the fade is remembered", len(rets) == 2, f.where(), detail=str(len(rets)), construct=f.ident, text="shortcut count")
 
 
 def _stack_reads(chk, repo):
@@ -768,6 +812,8 @@ def battery():
         M("all fade-outs of a light share one clean-up timer", LT, "name=\"remove_fade_{}\".format(key))", "name=\"remove_fade_out\")", "PAIR-24"),
         M("fade-out starts from the visible colour", LT, "            color_of_key = self._get_color_and_fade(stack, 0)[0]", "            color_of_key = self.get_color()", "FADE-2"),
         M("twin: fade-out timer named with an f-string", LT, "name=\"remove_fade_{}\".format(key))", "name=f\"remove_fade_{key}\")", None),
+        M("same-target shortcut compares with the remembered start colour", LT, "target_color == self._last_fade_target[2] and", "target_color == self._last_fade_target[0] and", "SUPP-1"),
+        M("fade-ended test reads the remembered start time", LT, "(self._last_fade_target[3] < 0 or self._last_fade_target[3] < self.machine.clock.get_time())", "(self._last_fade_target[1] < 0 or self._last_fade_target[1] < self.machine.clock.get_time())", "SUPP-1"),
     ]
 
 
